@@ -326,3 +326,83 @@ CONTRACTS += [
         native={'gen': _gen_load, 'build': _build_load},
     ),
 ]
+
+
+# =====================================================================================================================
+# write / load round trips (C09, C15): bounded only
+# =====================================================================================================================
+def _enrich_rt(rng, d, objects_only=False):
+    """features that matter for serialisation: adjustments with slope 1 / non-zero intercept, zero-size binaries,
+    lookup lists, units, descriptions, UTF-16 strings with explicit byte order, time types"""
+    d = _enrich(rng, d)
+    conts = d['containers']
+    kids = [c for c in conts if c['base'] == 'CCSDSPacket']
+    for t in d['ptypes']:
+        if t['kind'] in ('bin', 'str') and t.get('adj'):
+            t['adj'] = rng.choice([[8, 0], [1, 0], [1, 8], [8, 16], [2, 4]])
+    d['date'] = '2024-01-01T00:00:00'
+    d['space_system_name'] = 'VERIF'
+    if objects_only:
+        extra = []
+        lookups = [[[['MODE', '==', str(m), True]], 8 * (m + 1)] for m in range(3)]
+        e16 = rng.choice(['UTF-16', 'UTF-16LE', 'UTF-16BE', 'UTF-8', 'UTF-32'])
+        bo = {'UTF-16LE': 'leastSignificantByteFirst', 'UTF-16BE': 'mostSignificantByteFirst', 'UTF-8': None}.get(
+            e16, rng.choice(['mostSignificantByteFirst', 'leastSignificantByteFirst']))
+        extra.append({'name': 'X_UTF16_T', 'kind': 'str2', 'encoding': e16, 'byte_order': rng.choice([bo, None]) if e16.endswith('E') else bo,
+                      'bits': 32})
+        extra.append({'name': 'X_TERM_T', 'kind': 'str2', 'encoding': 'UTF-8', 'bits': 32, 'term': '00', 'unit': rng.choice([None, 'm'])})
+        extra.append({'name': 'X_LEAD_T', 'kind': 'str2', 'encoding': 'US-ASCII', 'bits': 32, 'lead': 8})
+        extra.append({'name': 'X_LKS_T', 'kind': 'str2', 'encoding': 'US-ASCII', 'lookups': lookups})
+        extra.append({'name': 'X_LKB_T', 'kind': 'bin2', 'lookups': lookups})
+        extra.append({'name': 'X_BIN0_T', 'kind': 'bin', 'bits': rng.choice([0, 8])})
+        extra.append({'name': 'X_TIME_T', 'kind': 'time', 'w': 32, 'absolute': rng.choice([True, False]),
+                      'unit': rng.choice([None, 's']), 'epoch': rng.choice([None, 'TAI', '2000-01-01T12:00:00']),
+                      'offset_from': rng.choice([None, 'MODE']),
+                      'default': rng.choice([None, ['poly', [[5.0, 0], [0.5, 1]]], ['poly', [[2.0, 1]]]])})
+        chosen = rng.sample(extra, rng.randint(1, 4))
+        tail = {'name': 'XTAIL', 'entries': [], 'base': None, 'criteria': None, 'abstract': False}
+        for t in chosen:
+            d['ptypes'].append(t)
+            pname = t['name'][:-2]
+            d['params'].append({'name': pname, 'type': t['name']})
+            tail['entries'].append(pname)
+        conts.append(tail)
+    return d
+
+
+def _gen_roundtrip(rng, tier, variant):
+    """definitions of the enriched family built from OBJECTS and the same family LOADED from XML (three namespace
+    conventions), each with packets reaching every container"""
+    from contracts._defgen import gen_definition, gen_packet
+    for _ in range(60 if tier == 'quick' else 800):
+        how = rng.choice(['objects', 'objects+', 'objects+', 'loaded:prefix', 'loaded:default', 'loaded:none'])
+        d = _enrich_rt(rng, gen_definition(rng), objects_only=(how == 'objects+'))
+        pk = [gen_packet(rng, d).hex() for _ in range(6)]
+        yield {'def': d, 'pkts': pk, 'how': how}
+
+
+def _build_roundtrip(r):
+    def make():
+        import warnings
+        warnings.simplefilter('ignore')
+        from contracts._defgen import build_definition
+        from contracts._xmlgen import load_recipe
+        if r['how'].startswith('objects'):
+            d = build_definition(r['def'])
+        else:
+            style = r['how'].split(':')[1]
+            d = load_recipe(r['def'], style, 'xtce')
+            d.date = r['def']['date']
+        return {'definition': d, 'raws': [bytes.fromhex(p) for p in r['pkts']]}
+    return {'make': make}
+
+
+CONTRACTS += [
+    Contract(
+        target='ghost.c09_roundtrip',
+        props=['C09', 'C15'],
+        params={}, requires=[], ensures={}, modifies=[],
+        native_only='XML writers and readers run on lxml (C code, E6): bounded enumeration of write/load cycles only',
+        native={'gen': _gen_roundtrip, 'build': _build_roundtrip},
+    ),
+]
